@@ -96,6 +96,17 @@ def handle : Handler
         "strip=" ++ hex (stripBytes buf),
         "find=" ++ outBool (containsSub (45 :: 45 :: bnd) buf)])
     | _, _, _ => some badArgs
+  | "mp.dataphase", [bnd, start, buf, chunks] =>
+    match unhex bnd, boolArg start, unhex buf, listArg unhex chunks with
+    | some bnd, some start, some buf, some chunks =>
+      let spec := match dataSpec bnd start (buf ++ chunks.flatten) with
+        | some (p, f, r) => hex p ++ ":" ++ outBool f ++ ":" ++ hex r
+        | none => "~"
+      some (match dataPhase bnd start buf [] chunks with
+        | .ok (p, some (f, r)) => hex p ++ ":" ++ outBool f ++ ":" ++ hex r ++ "|" ++ spec
+        | .ok (p, none) => hex p ++ ":~|" ++ spec
+        | .error e => "EXC:" ++ e)
+    | _, _, _, _ => some badArgs
   | "mp.decode", [bnd, mm, mp, chunks] =>
     match unhex bnd, optArg natArg mm, optArg natArg mp, listArg unhex chunks with
     | some bnd, some mm, some mp, some chunks =>
